@@ -1,0 +1,92 @@
+//go:build verif
+// +build verif
+
+package vm
+
+// Verification hooks (build tag "verif"). They only observe: no VM state is
+// changed. With the tag off, verif_off.go provides empty methods.
+
+const (
+	VerifBegin = iota
+	VerifStep
+	VerifAllocReq
+	VerifAlloc
+	VerifEnd
+)
+
+// VerifEvent is a snapshot of the VM's private state at a hook point. The
+// event value is owned by the VM and reused between calls: consumers must
+// copy what they keep.
+type VerifEvent struct {
+	Kind      int
+	VM        *VM
+	Program   *Program
+	PP        int
+	IP        int
+	Op        byte
+	StackLen  int
+	Scopes    int
+	Memory    int
+	Limit     int
+	Accounted int
+	Created   interface{}
+	Err       error
+}
+
+// VerifHook, when non-nil, receives every event of every VM that has no hook
+// of its own. It must be set before any run starts and not changed afterwards.
+var VerifHook func(*VerifEvent)
+
+type verifState struct {
+	hook func(*VerifEvent)
+	ev   VerifEvent
+	prog *Program
+}
+
+// SetVerifHook installs a hook private to this VM value.
+func (vm *VM) SetVerifHook(h func(*VerifEvent)) { vm.verif.hook = h }
+
+func (vm *VM) verifEmit(kind int, op byte, accounted int, created interface{}, err error) {
+	h := vm.verif.hook
+	if h == nil {
+		h = VerifHook
+		if h == nil {
+			return
+		}
+	}
+	e := &vm.verif.ev
+	e.Kind = kind
+	e.VM = vm
+	e.Program = vm.verif.prog
+	e.PP = vm.pp
+	e.IP = vm.ip
+	e.Op = op
+	e.StackLen = len(vm.stack)
+	e.Scopes = len(vm.scopes)
+	e.Memory = vm.memory
+	e.Limit = vm.limit
+	e.Accounted = accounted
+	e.Created = created
+	e.Err = err
+	h(e)
+	e.Created = nil
+	e.Err = nil
+}
+
+func (vm *VM) verifBegin(program *Program) {
+	vm.verif.prog = program
+	vm.verifEmit(VerifBegin, 0, 0, nil, nil)
+}
+
+func (vm *VM) verifStep(op byte) { vm.verifEmit(VerifStep, op, 0, nil, nil) }
+
+func (vm *VM) verifAllocReq(size int) { vm.verifEmit(VerifAllocReq, 0, size, nil, nil) }
+
+func (vm *VM) verifAlloc(size int, created interface{}) {
+	vm.verifEmit(VerifAlloc, 0, size, created, nil)
+}
+
+func (vm *VM) verifEnd(err error) {
+	vm.verifEmit(VerifEnd, 0, 0, nil, err)
+	vm.verif.prog = nil
+}
